@@ -108,6 +108,7 @@ pub fn decode_c10(u: &mut Unstructured) -> Result<CacheCase> {
         ttl,
         mode,
         ops,
+        setter_order: 0,
     })
 }
 
